@@ -359,6 +359,13 @@ func PublishContext[T any](bus *EventBus, ctx context.Context, event T) {
 
 		// For once handlers, use CompareAndSwap to ensure atomic execution
 		if h.once {
+			// A publish whose context is already cancelled skips its handlers;
+			// it must not use up a once handler it is not going to run.
+			select {
+			case <-ctx.Done():
+				continue
+			default:
+			}
 			if !atomic.CompareAndSwapUint32(&h.executed, 0, 1) {
 				continue // Already executed
 			}
